@@ -620,7 +620,10 @@ func (c *ctx) p2pCases() {
 				pm, err := sub2.Next(sctx)
 				if err != nil {
 					scancel()
-					c.Fail("p2p-not-delivered:"+msgSummary(m), err.Error(), replay{Kind: "roundtrip", Msg: ptr(descOf(m))})
+					c.fails["p2p-not-delivered"]++
+					if c.fails["p2p-not-delivered"] <= 2 {
+						c.Fail("p2p-not-delivered:"+msgSummary(m), err.Error(), replay{Kind: "roundtrip", Msg: ptr(descOf(m))})
+					}
 					continue
 				}
 				data = pm.Data
@@ -638,7 +641,11 @@ func (c *ctx) p2pCases() {
 				// what the announce receiver does with it (receiver.go): decode from a bytes.Buffer
 				var got message.Message
 				if err := got.UnmarshalCBOR(bytes.NewBuffer(data)); err != nil || !sameMsg(want, got) {
-					c.Fail("p2p-wire:receiver-decodes-different-message:"+msgSummary(m), fmt.Sprint(err), replay{Kind: "roundtrip", Msg: ptr(descOf(m))})
+					c.fails["p2p-wire"]++
+					if c.fails["p2p-wire"] <= 2 {
+						c.Fail(fmt.Sprintf("p2p-wire:receiver-decodes-different-message:cfg-extra=%d,%s", len(exd), msgSummary(m)),
+							fmt.Sprintf("decode error %v; sent %s, receiver decoded %s", err, msgSummary(want), msgSummary(got)), replay{Kind: "roundtrip", Msg: ptr(descOf(m))})
+					}
 				}
 				c.Nontrivial("p2p:" + msgSummary(m))
 			}
